@@ -172,7 +172,7 @@ break&#9;tab</ex:p>
     <e:q rdf:datatype="&xsd;decimal">-1.5</e:q><e:q rdf:datatype="&xsd;double">1.0E3</e:q>
     <e:q rdf:datatype="&xsd;boolean">true</e:q><e:q rdf:resource="http://example.org/dir/other"/></rdf:Description>
   <rdf:Description rdf:about="http://example.org/dir/other"><e:p rdf:nodeID="n1"/></rdf:Description>
-  <rdf:Description rdf:nodeID="n1"><e:p xml:lang="">in bnode</e:p><e:q rdf:nodeID="n2"/></rdf:Description>
+  <rdf:Description rdf:nodeID="n1" xml:lang="fr"><e:p xml:lang="">in bnode</e:p><e:q rdf:nodeID="n2"/></rdf:Description>
   <rdf:Description rdf:nodeID="n2"><e:p rdf:resource="&ex;with.dot"/></rdf:Description>
   <rdf:Description rdf:about="&ex;a%%2Cb"><e:p rdf:resource="&ex;x"/></rdf:Description>
 </rdf:RDF>''' % (NS, xsd, rdf)
